@@ -89,6 +89,14 @@ CURRENT_FP = {}     # the same for the current tree (written by gen.py --pin)
 RECOVERED, LOST = {}, {}
 
 
+def load_pinned():
+    """fingerprints of the named locals of the pinned tree (every tool that traces - gen.py, equiv.py - must see the same ones)"""
+    import os, json
+    p = os.path.join(os.path.dirname(os.path.abspath(__file__)), '..', '..', 'Spec', 'local_fingerprints.json')
+    if os.path.exists(p):
+        PINNED_FP.update(json.load(open(p))['modules'])
+
+
 def collect_items(m, stub, loc, ret):
     """ordered list of (name, E) for everything the module exposes"""
     items = []
